@@ -53,6 +53,7 @@ class Ctx:
         self.notes: dict[str, object] = {}
         self.lines: dict[str, list[int]] = {}
         self.executable: dict[str, list[int]] = {}
+        self.shard: dict | None = None  # the shard being executed (recorded with every violation: see run_replay)
 
     # -- bookkeeping -----------------------------------------------------------------------
     def evaluated(self, case_fp=None, nontrivial: bool = False, n: int = 1):
@@ -84,7 +85,10 @@ class Ctx:
         """A refuting observation.  `kind` names the mechanism (used by known-finding classifiers)."""
         self.n_violations += 1
         if len(self.violations) < MAX_VIOLATIONS_PER_SHARD:
-            self.violations.append({"kind": kind, "case": case, "detail": detail})
+            v = {"kind": kind, "case": case, "detail": detail}
+            if self.shard is not None:
+                v["shard"], v["shard_index"] = self.shard, self.shard_index
+            self.violations.append(v)
 
     def inconclusive(self, reason: str):
         if len(self.inconclusive_) < 20:
@@ -329,23 +333,49 @@ def run_property(prop: str, tier: str, seed: int) -> int:
 
 
 def run_replay(prop: str, path: str) -> int:
-    """Re-runs one recorded case in-process and prints both sides."""
+    """Re-runs one recorded case in-process and prints both sides.
+
+    Some violations depend on what the same worker process did BEFORE the recorded case (a long-lived aggregator instance shared by
+    the cases of a shard, a contract observed during a workload): when the case alone shows nothing (or cannot be rebuilt), the
+    recorded SHARD is re-executed in a fresh worker (same property, tier, seed, shard index: deterministic) and a violation of
+    the recorded kind counts as the reproduction."""
     from . import boot
     boot.boot()
     mod = load_prop(prop)
     with open(path) as f:
         rec = json.load(f)
     ctx = Ctx(prop, rec.get("tier", "quick"), rec.get("seed", 0), -1)
+    crashed = False
     try:
         mod.replay(rec["case"], ctx)
     except Exception:
         traceback.print_exc()
-        print(f"INCONCLUSIVE property={prop} reason=replay crashed")
-        return 2
+        crashed = True
     for v in ctx.violations:
         print(json.dumps(v, indent=1, default=str)[:4000])
     if ctx.violations:
         print(f"VIOLATION property={prop} replay={path}")
         return 1
+    if rec.get("shard") is not None and rec["shard"].get("kind") != "pinned":
+        print("the recorded case alone shows no violation: re-running the shard that produced it "
+              f"(tier={rec.get('tier')} seed={rec.get('seed')} shard_index={rec.get('shard_index')} {rec['shard']})")
+        workdir = os.path.join(ROOT, ".work", f"{prop}-replay-{os.getpid()}")
+        os.makedirs(workdir, exist_ok=True)
+        try:
+            res = _run_one(prop, rec.get("tier", "quick"), rec.get("seed", 0), rec.get("shard_index", 0), rec["shard"], workdir, 5400)
+        finally:
+            shutil.rmtree(workdir, ignore_errors=True)
+        same = [v for v in res.get("violations", []) if v.get("kind") == rec.get("kind")]
+        for v in same[:2]:
+            print(json.dumps({k: v[k] for k in ("kind", "detail")}, indent=1, default=str)[:3000])
+        if same:
+            print(f"VIOLATION property={prop} replay={path}")
+            return 1
+        if res.get("inconclusive"):
+            print(f"INCONCLUSIVE property={prop} reason=shard re-run: {res['inconclusive'][:2]}")
+            return 2
+    if crashed:
+        print(f"INCONCLUSIVE property={prop} reason=replay crashed")
+        return 2
     print(f"HELD property={prop} (replayed case shows no violation)")
     return 0
